@@ -173,8 +173,13 @@ def props_theorems() -> dict[str, list[str]]:
     for p in sorted((LEAN / "PsVerif" / "Props").glob("C*.lean")):
         body = strip_comments(p.read_text())
         names = re.findall(r"^\s*(?:protected\s+)?theorem\s+([A-Za-z_][\w.']*)", body, flags=re.M)
-        res[p.stem] = names
+        # a property may have several theorem files: Props/C01.lean, Props/C01Life.lean, … all belong to C01
+        res.setdefault(p.stem[:3], []).extend(names)
     return res
+
+
+def props_modules(pid: str) -> list[str]:
+    return ["PsVerif.Props." + p.stem for p in sorted((LEAN / "PsVerif" / "Props").glob(pid + "*.lean"))]
 
 
 def write_audit_file() -> Path:
@@ -249,7 +254,7 @@ class ProofGate:
                 if axs is None or not set(axs) <= ALLOWED_AXIOMS:
                     self.bad.append(n)
             if tier == "thorough" and os.environ.get("VERIF_SKIP_LEANCHECKER") != "1":
-                r = _run(["lake", "env", "leanchecker", f"PsVerif.Props.{pid}"], cwd=LEAN,
+                r = _run(["lake", "env", "leanchecker", *props_modules(pid)], cwd=LEAN,
                          timeout=7200)
                 self.leanchecker = (r.returncode == 0)
                 if r.returncode != 0:
@@ -269,7 +274,7 @@ class ProofGate:
     def checker_cmd(self):
         c = "cd lean && lake build PsVerif driver && lake env lean Audit/All.lean"
         if self.leanchecker is not None:
-            c += f" && lake env leanchecker PsVerif.Props.{self.pid}"
+            c += " && lake env leanchecker " + " ".join(props_modules(self.pid))
         return c
 
     def describe_failure(self):
